@@ -41,6 +41,7 @@ type audFields struct {
 	Exe     string
 	Args    []string
 	Paths   []string
+	PathNT  []string // nametype per PATH record ("" = NORMAL)
 	Cwd     string
 	Tail    bool
 	Key     string
@@ -95,7 +96,11 @@ func buildAudEvent(typ string, tsIdx, seq int, f audFields) audEvent {
 			e.Lines = append(e.Lines, fmt.Sprintf("type=CWD msg=%s: cwd=%s", st, q(f.Cwd)))
 		}
 		for i, p := range f.Paths {
-			pl := fmt.Sprintf("type=PATH msg=%s: item=%d name=%s inode=1453124 dev=fd:00 mode=0100755 ouid=0 ogid=0 rdev=00:00 nametype=NORMAL cap_fp=0 cap_fi=0 cap_fe=0 cap_fver=0 cap_frootid=0", st, i, q(p))
+			nt := "NORMAL"
+			if i < len(f.PathNT) && f.PathNT[i] != "" {
+				nt = f.PathNT[i]
+			}
+			pl := fmt.Sprintf("type=PATH msg=%s: item=%d name=%s inode=1453124 dev=fd:00 mode=0100755 ouid=0 ogid=0 rdev=00:00 nametype=%s cap_fp=0 cap_fi=0 cap_fe=0 cap_fver=0 cap_frootid=0", st, i, q(p), nt)
 			if f.Tail {
 				pl += ` OUID="root" OGID="root"`
 			}
@@ -167,7 +172,8 @@ func genAudFields(rt *rapid.T, typ string, ses string, pid string) audFields {
 	f.UID = pick(rt, "uid", []string{"0", "1000", "4294967295", "65534"})
 	f.Tail = rapid.IntRange(0, 2).Draw(rt, "tail") == 0
 	f.Key = pick(rt, "key", []string{"operator-commands", "security-config-changes", "x"})
-	f.Syscall = pick(rt, "sc", []string{"59", "257", "2", "87"})
+	// execve, openat, open, unlink, mkdir, rename, rmdir, link, symlink, chmod, unlinkat, renameat2
+	f.Syscall = pick(rt, "sc", []string{"59", "59", "257", "2", "87", "83", "82", "84", "86", "88", "90", "263", "316"})
 	if typ == "SYSCALL" || typ == "USER_CMD" || typ == "AVC_SYSCALL" {
 		if typ == "USER_CMD" || rapid.IntRange(0, 3).Draw(rt, "execve") > 0 {
 			n := rapid.IntRange(1, 5).Draw(rt, "argc")
@@ -181,8 +187,16 @@ func genAudFields(rt *rapid.T, typ string, ses string, pid string) audFields {
 		if rapid.Bool().Draw(rt, "cwd") || typ == "USER_CMD" {
 			f.Cwd = pick(rt, "cwdv", []string{"/", "/root", "/home/some user"})
 		}
-		for i := rapid.IntRange(0, 3).Draw(rt, "npaths"); i > 0; i-- {
-			f.Paths = append(f.Paths, pick(rt, "path", []string{"/usr/bin/ls", "/lib64/ld-linux-x86-64.so.2", "/etc/shadow", "/tmp/a b", "/src/issue#101.patch"}))
+		for i := rapid.IntRange(0, 4).Draw(rt, "npaths"); i > 0; i-- {
+			f.Paths = append(f.Paths, pick(rt, "path", []string{"/usr/bin/ls", "/lib64/ld-linux-x86-64.so.2", "/etc/shadow", "/tmp/a b", "/src/issue#101.patch", "/home/alice", "/home/alice/secrets", "old name", "new name"}))
+			// the object of mkdir/rename/unlink/... is not the first PATH record (PARENT entries come first)
+			f.PathNT = append(f.PathNT, pick(rt, "nametype", []string{"NORMAL", "NORMAL", "PARENT", "CREATE", "DELETE"}))
+		}
+		if len(f.Args) > 0 && typ != "USER_CMD" && rapid.IntRange(0, 15).Draw(rt, "manyargs") == 7 {
+			// a shell glob expansion: dozens of arguments
+			for i := rapid.IntRange(60, 90).Draw(rt, "nmany"); i > 0; i-- {
+				f.Args = append(f.Args, "f"+strconv.Itoa(i))
+			}
 		}
 	}
 	return f
